@@ -24,7 +24,7 @@ def commonprefix(paths):
     for i, bit in enumerate(lo):
         if bit != hi[i]:
             return cls(cls.sep.join(lo[:i]), paths[0].root, directory=True)
-    return cls(cls.sep.join(lo), paths[0].root, directory=(lo != hi))
+    return cls(cls.sep.join(lo), paths[0].root, directory=(lo != hi or not lo))
 
 
 def uniquetrees(paths):
